@@ -70,6 +70,7 @@ fn c02_effective_name_with_non_ascii_version() {
 //   P4 two neighbouring lines share a derived mapping only if contiguous and (same name, or one of them is
 //      the linker's inaccessible reserved gap after / between parts of an executable file mapping)
 //   P5 the non-path line that starts at the vDSO address is named linux-gate.so
+//   P7 kernel-reported range = [start, end of the last non-gap line); P8 permissions = union over the same lines
 //   P6 a derived mapping carries the mapped path of its first line without the " (deleted)" marker
 // ---------------------------------------------------------------------------
 #[derive(Clone, Copy, PartialEq, Debug)]
@@ -156,6 +157,26 @@ fn check_map(lines: &[Line], gate: Option<usize>, n_eval: &mut usize) -> std::re
         let want = sanitized(first.name).map(OsStr::new);
         if m.name.as_deref() != want {
             return Err(format!("P6 the mapping at {:x} (first line named {:?}) is named {:?}, expected {:?}", m.start_address, NAMES[first.name], m.name, want));
+        }
+    }
+    // P7 / P8 (what the stack-capture and module contracts ASSUME of a derived mapping, `map_wf` in
+    // verus/inc/maps_specs.inc): the kernel-reported range starts where the mapping starts and ends at the end of the
+    // last merged line that carries the mapping's name (the reserved-gap rule deliberately leaves the range
+    // alone); the permissions are the union over the same lines
+    for (i, m) in out.iter().enumerate() {
+        let mine: Vec<&Line> = lines.iter().zip(&owner).filter(|(_, o)| **o == i).map(|(l, _)| l).collect();
+        let group = sanitized(mine[0].name);
+        // lines that carry the mapping's name extend it fully; a line merged as reserved gap (whatever it is called) does not
+        let counted: Vec<&&Line> = mine.iter().enumerate().filter(|(k, l)| *k == 0 || (group.is_some() && sanitized(l.name) == group)).map(|(_, l)| l).collect();
+        let sys_end = counted.last().unwrap().end;
+        if m.system_mapping_info.start_address != m.start_address || m.system_mapping_info.end_address != sys_end {
+            return Err(format!("P7 kernel-reported range of the mapping at {:x} is {:x}-{:x}, expected {:x}-{:x}", m.start_address,
+                m.system_mapping_info.start_address, m.system_mapping_info.end_address, m.start_address, sys_end));
+        }
+        let bits = |l: &Line| match l.perms { 0 => 1 | 4, 1 => 1 | 2, 2 => 1, _ => 0 } | 16u8;
+        let want = counted.iter().fold(0u8, |a, l| a | bits(l));
+        if m.permissions.bits() != want {
+            return Err(format!("P8 permissions of the mapping at {:x} are {:#x}, expected the union {:#x} of its lines", m.start_address, m.permissions.bits(), want));
         }
     }
     // P5
